@@ -89,6 +89,8 @@ def _elem1(name, native):
     def one(x):
         if isinstance(x, Sym):
             return getattr(x, name)() if hasattr(Sym, name) else fn1(name, x)
+        if name in ("arccos", "arcsin") and NPX.symbolic_consts and NPX.symbolic_pi and float(x) in (0.0, 1.0, -1.0):
+            return {("arccos", 0): PI / 2.0, ("arccos", 1): 0.0, ("arccos", -1): PI, ("arcsin", 0): 0.0, ("arcsin", 1): PI / 2.0, ("arcsin", -1): PI / -2.0}[(name, int(float(x)))]
         try:
             return theory.CONCRETE[name](float(x)) if name in theory.CONCRETE else float(native(float(x)))
         except (ValueError, OverflowError):
@@ -99,6 +101,17 @@ def _elem1(name, native):
     def f(x, *a, out=None, **kw):
         if isinstance(x, Sym):
             return one(x)
+        if name in ("arccos", "arcsin") and NPX.symbolic_consts and NPX.symbolic_pi:
+            # reals reading of the special values (multiples of pi stay symbolic)
+            tab = {("arccos", 0): PI / 2.0, ("arccos", 1): 0.0, ("arccos", -1): PI, ("arcsin", 0): 0.0, ("arcsin", 1): PI / 2.0, ("arcsin", -1): PI / -2.0}
+            if isinstance(x, (int, float)) and not isinstance(x, bool) and x in (0, 1, -1):
+                return tab[(name, int(x))]
+            if isinstance(x, rnp.ndarray) and x.dtype != object and x.size and x.size <= 64 and rnp.any(rnp.isin(x, (0, 1, -1))):
+                o = rnp.empty(x.shape, dtype=object)
+                for idx in rnp.ndindex(x.shape):
+                    v_ = float(x[idx])
+                    o[idx] = tab[(name, int(v_))] if v_ in (0.0, 1.0, -1.0) else float(native(v_))
+                return o
         if name in ("sqrt", "log") and NPX.symbolic_consts and isinstance(x, (int, float)) and not isinstance(x, bool):
             # reals reading of constants such as np.sqrt(2), np.log(2): irrational values stay symbolic
             c = _exact_const(name, x)
